@@ -17,7 +17,7 @@ RULE = ('fault enumeration over reachable states: the operation histories of C10
         'exception type). Evidence lists the (operation x exception) matrix.')
 ASSUMPTIONS = [
     'any exception counts as a rejection; calls that do not raise are not faults and are only counted',
-    'snapshots compare to_er7() and the (class, name) listing of real children of every root',
+    'snapshots compare to_er7(), to_er7(trailing_children=True) and the (class, name) listing of real children of every root',
 ]
 TECHNIQUE = 'fault injection by construction: generated operation histories with calls built to be refused; snapshot-equality oracle around every raising call'
 LEVEL_TEXT = ('fault enumeration: each rejected call met in sampled histories is a fault point; the (entry point x cause) matrix with '
@@ -101,7 +101,7 @@ def check(case, acc=None):
                         return found
                     break
                 return found + [('C12-rejected-%s-changed-state:%s' % (kind, et), 'step %d %r raised %s\nbefore %r\nafter  %r' % (
-                    n + 1, op, F._exc(a.raised), snap[0][:300], now[0][:300]) + ('' if snap[0] != now[0] else '\nlisting before %r\nlisting after  %r' % (snap[1], now[1])))]
+                    n + 1, op, F._exc(a.raised), snap[0][:300], now[0][:300]) + ('' if snap[0] != now[0] else '\nlisting before %r\nlisting after  %r\nwith trailing children before %r\nafter %r' % (snap[1], now[1], snap[2][:300], now[2][:300])))]
         for o in a.objects:
             if tgt is not None and o.parent is tgt and not any(c is o for c in tgt.children.list):
                 case['_nt'] = nt
